@@ -83,7 +83,7 @@ pub fn run(ctx: &Ctx) -> i32 {
     let alpha12: Vec<char> = vec!['A', 'a', '1', '\u{1E}', '\u{04}', 'é', '\u{80}', '€', '😀', '~', '\u{A0}', '\u{7F}'];
     let mut alpha24 = alpha12.clone();
     alpha24.extend([' ', '*', '\r', 'ÿ', '\u{9F}', '\u{100}', '\u{7FF}', '\u{800}', '\u{FFFF}', '\u{10000}', '\u{1D}', '[']);
-    let plans: Vec<(Vec<char>, usize)> = ctx.tier.pick(vec![(alpha12.clone(), 4), (alpha24.clone(), 3)], vec![(alpha12.clone(), 6), (alpha24.clone(), 4)]);
+    let plans: Vec<(Vec<char>, usize)> = ctx.tier.pick(vec![(alpha12.clone(), 5), (alpha24.clone(), 3)], vec![(alpha12.clone(), 6), (alpha24.clone(), 4)]);
     for (alpha, maxlen) in plans {
         let idx: Vec<u8> = (0..alpha.len() as u8).collect();
         let fam = Family::Over { alpha: idx, min: 0, max: maxlen };
@@ -149,9 +149,9 @@ pub fn run(ctx: &Ctx) -> i32 {
         "evaluations": ctx.evaluations(),
         "distinct_nontrivial": ctx.counter("nontrivial"),
         "rule": format!("every Unicode scalar value (1,112,064) as a one-character string through encode_str -> data_codewords -> decode_str, and through utf8_to_latin1; all strings over a 12-character class alphabet \
-(ASCII letters/digit, RS, EOT, e-acute, U+0080, euro, emoji, ~, NBSP, DEL) of length <= {} and over 24 characters of length <= {}, each also inside the macro 05/06 envelope (length <= 3); all strings of length 2..3 over the Latin-1 boundary characters; \
+(ASCII letters/digit, RS, EOT, e-acute, U+0080, euro, emoji, ~, NBSP, DEL) of length <= {} and over 24 characters of length <= {}, each (up to length 3) also inside the macro 05/06 envelope (length <= 3); all strings of length 2..3 over the Latin-1 boundary characters; \
 latin1_to_utf8 on all 256 bytes and 65,536 pairs against ISO 8859-1 by rule, utf8_to_latin1 as its inverse. Oracle: round trip; printable Latin-1 => no ECI and Latin-1 bytes (reference decoder R5); otherwise exactly one UTF-8 designator (241 27) first (after a macro codeword) and UTF-8 payload. \
-All cases distinct; non-trivial = UTF-8/ECI path taken or helper defined.", ctx.tier.pick(4, 6), ctx.tier.pick(3, 4)),
+All cases distinct; non-trivial = UTF-8/ECI path taken or helper defined.", ctx.tier.pick(5, 6), ctx.tier.pick(3, 4)),
         "exhaustive": true,
         "latin1_without_eci": ctx.counter("latin1_without_eci"),
         "utf8_with_eci": ctx.counter("utf8_with_eci"),
